@@ -404,3 +404,127 @@ add("C13", "report-change-updated-node", "core_codemods/fix_assert_tuple.py",
 add("C13", "match_line-start-only", "codemodder/codemods/base_visitor.py",
     [("    return pos.start.line == line and pos.end.line == line", "    return pos.start.line == line")],
     "fire", "R-FILTER-SIBLING", "match_line")
+
+# --------------------------------------------------------------------------- C01
+add("C01", "future-imports-comma-not-reset", "core_codemods/remove_future_imports.py",
+    [("                if updated_names:\n                    # the last remaining alias must not keep a trailing comma\n                    updated_names[-1] = updated_names[-1].with_changes(\n                        comma=cst.MaybeSentinel.DEFAULT\n                    )\n", "")],
+    "fire", "R-COMMA-TAIL", "RemoveFutureImports")
+add("C01", "unused-imports-comma-not-reset", "codemodder/codemods/transformations/remove_unused_imports.py",
+    [("            new_aliases[-1] = new_aliases[-1].with_changes(\n                comma=cst.MaybeSentinel.DEFAULT\n            )\n", "")],
+    "fire", "R-COMMA-TAIL", "leave_import_alike")
+add("C01", "invert-fallback-comparison-target", "core_codemods/invert_boolean_check.py",
+    [("                case _:\n                    # unknown operator: do not rewrite\n                    return None", "                case _:\n                    new_operator = comparison_op")],
+    "fire", "R-NODETYPE", "_invert_comparisons")
+add("C01", "bad-template-csrf", "core_codemods/flask_enable_csrf_protection.py",
+    [("f\"csrf_{named_targets[0].value} = CSRFProtect({named_targets[0].value})\"", "f\"csrf_{named_targets[0].value} = CSRFProtect({named_targets[0].value}\"")],
+    "fire", "R-TEMPLATE-PARSES", "FlaskEnableCSRFProtection")
+add("C01", "flask-json-fixed-quote-foreign-text", "core_codemods/flask_json_response_type.py",
+    [("            cst.SimpleString(f\"'{self.content_type_key}'\"),\n            cst.SimpleString(f\"'{self.json_content_type}'\"),\n        )", "            cst.SimpleString(f\"'{self.content_type_key}'\"),\n            cst.SimpleString(f\"'{node.value}'\"),\n        )")],
+    "fire", "R-STRLIT", "FlaskJsonResponseTypeVisitor")
+
+# --------------------------------------------------------------------------- C02
+add("C02", "secure-random-import-dropped", "core_codemods/secure_random.py",
+    [("        self.add_needed_import(\"secrets\")\n", "")],
+    "fire", "R-IMPORT-PAIR", "SecureRandomTransformer")
+add("C02", "secure-random-import-only-on-one-path", "core_codemods/secure_random.py",
+    [("        self.remove_unused_import(original_node)\n        self.add_needed_import(\"secrets\")\n\n        if self.find_base_name(original_node.func) == \"random.choice\":\n            return self.update_call_target(updated_node, \"secrets\")",
+      "        self.remove_unused_import(original_node)\n\n        if self.find_base_name(original_node.func) == \"random.choice\":\n            self.add_needed_import(\"secrets\")\n            return self.update_call_target(updated_node, \"secrets\")")],
+    "fire", "R-IMPORT-PAIR", "SecureRandomTransformer")
+add("C02", "sslcontext-wrong-import", "core_codemods/upgrade_sslcontext_tls.py",
+    [("        self.add_needed_import(\"ssl\")", "        self.add_needed_import(\"tls\")")],
+    "fire", "R-IMPORT-PAIR", "UpgradeSSLContextTLS")
+add("C02", "csrf-import-dropped-in-one-hook", "core_codemods/flask_enable_csrf_protection.py",
+    [("            if new_stmts:\n                self.add_needed_import(\"flask_wtf.csrf\", \"CSRFProtect\")\n                self.add_dependency(FlaskWTF)\n                self.report_change(original_node)\n                return updated_node.with_changes(body=[*original_node.body, *new_stmts])",
+      "            if new_stmts:\n                self.add_dependency(FlaskWTF)\n                self.report_change(original_node)\n                return updated_node.with_changes(body=[*original_node.body, *new_stmts])")],
+    "fire", "R-IMPORT-PAIR", "FlaskEnableCSRFProtection")
+add("C02", "pyyaml-import-even-with-alias-benign", "core_codemods/harden_pyyaml.py",
+    [("        if not maybe_aliased_name:\n            self.add_needed_import(YAML_MODULE_NAME)", "        self.add_needed_import(YAML_MODULE_NAME)")],
+    "silent")
+add("C02", "pyyaml-import-only-with-alias", "core_codemods/harden_pyyaml.py",
+    [("        if not maybe_aliased_name:\n            self.add_needed_import(YAML_MODULE_NAME)", "        if maybe_aliased_name:\n            self.add_needed_import(YAML_MODULE_NAME)")],
+    "fire", "R-IMPORT-PAIR", "")
+add("C02", "new-import-remover", "core_codemods/use_set_literal.py",
+    [("    def leave_Call(self, original_node: cst.Call, updated_node: cst.Call):\n        if not self.filter_by_path", "    def leave_ImportFrom(self, original_node, updated_node):\n        if self.filter_by_path_includes_or_excludes(self.node_position(original_node)):\n            return cst.RemoveFromParent()\n        return updated_node\n\n    def leave_Call(self, original_node: cst.Call, updated_node: cst.Call):\n        if not self.filter_by_path")],
+    "fire", "R-IMPORT-REMOVAL-OWNER", "UseSetLiteral")
+
+# --------------------------------------------------------------------------- C07 / C18
+for _p in ("C07", "C18"):
+    add(_p, "requests-verify-sets-false", "core_codemods/requests_verify.py",
+        [("[NewArg(name=\"verify\", value=\"True\", add_if_missing=False)]", "[NewArg(name=\"verify\", value=\"False\", add_if_missing=False)]")],
+        "fire", "R-FIXED-IMAGE", "requests-verify")
+    add(_p, "timeouts-wrong-keyword", "core_codemods/add_requests_timeouts.py",
+        [("return self.add_arg_to_call(updated_node, \"timeout\", self.DEFAULT_TIMEOUT)", "return self.add_arg_to_call(updated_node, \"timeouts\", self.DEFAULT_TIMEOUT)")],
+        "fire", "R-FIXED-IMAGE", "add-requests-timeouts")
+    add(_p, "timeouts-pattern-not-removed", "core_codemods/add_requests_timeouts.py",
+        [("            - pattern-not: requests.$CALL(..., timeout=$TIMEOUT, ...)\n", "")],
+        "fire", "R-FIXED-IMAGE", "add-requests-timeouts")
+    add(_p, "jinja-autoescape-only-if-present", "core_codemods/enable_jinja2_autoescape.py",
+        [("[NewArg(name=\"autoescape\", value=\"True\", add_if_missing=True)]", "[NewArg(name=\"autoescape\", value=\"True\", add_if_missing=False)]")],
+        "fire", "R-FIXED-IMAGE", "enable-jinja2-autoescape")
+    add(_p, "secure-random-keeps-module", "core_codemods/secure_random.py",
+        [("            return self.update_call_target(updated_node, \"secrets\")\n        return self.update_call_target(updated_node, \"secrets.SystemRandom()\")", "            return self.update_call_target(updated_node, \"random\")\n        return self.update_call_target(updated_node, \"random.SystemRandom()\")")],
+        "fire", "R-FIXED-IMAGE", "secure-random")
+    add(_p, "django-debug-stays-true", "core_codemods/django_debug_flag_on.py",
+        [("return updated_node.with_changes(value=cst.Name(\"False\"))", "return updated_node.with_changes(value=cst.Name(\"True\"))")],
+        "fire", "R-FIXED-IMAGE", "django-debug-flag-on")
+    add(_p, "ruamel-typ-base", "core_codemods/harden_ruamel.py",
+        [("[NewArg(name=\"typ\", value='\"safe\"', add_if_missing=False)]", "[NewArg(name=\"typ\", value='\"base\"', add_if_missing=False)]")],
+        "fire", "R-FIXED-IMAGE", "harden-ruamel")
+    add(_p, "benign-new-pattern-not", "core_codemods/requests_verify.py",
+        [("                    - pattern: requests.$F(..., verify=False, ...)\n", "                    - pattern: requests.$F(..., verify=False, ...)\n                    - pattern-not: requests.Session(...)\n")],
+        "silent")
+add("C18", "limit-readline-hook-removed", "core_codemods/limit_readline.py",
+    [("    def on_result_found(self, _, updated_node):", "    def on_result_found_disabled(self, _, updated_node):")],
+    "fire", "", "limit-readline")
+add("C18", "requests-verify-original-args-again", "core_codemods/requests_verify.py",
+    [("        new_args = self.replace_args(\n            updated_node, [NewArg(", "        new_args = self.replace_args(\n            original_node, [NewArg(")],
+    "fire", "R-LOST-UPDATE", "RequestsVerify")
+add("C18", "walrus-returns-original", "core_codemods/use_walrus_if.py",
+    [("                        test=updated_node.test.with_changes(left=new_expression)\n                    )\n\n        return updated_node", "                        test=updated_node.test.with_changes(left=new_expression)\n                    )\n\n        return original_node")],
+    "fire", "R-LOST-UPDATE", "UseWalrusIf")
+add("C18", "leave-call-override-ignores-results", "core_codemods/harden_ruamel.py",
+    [("    def on_result_found(self, original_node, updated_node):", "    def leave_Call(self, original_node, updated_node):\n        return updated_node\n\n    def on_result_found(self, original_node, updated_node):")],
+    "fire", "R-HOOK-KIND", "harden-ruamel")
+
+# --------------------------------------------------------------------------- C08
+add("C08", "fold-right-loses-parens", "core_codemods/combine_calls_base.py",
+    [("            operator=node.right.operator,\n            right=new_right,\n            lpar=node.lpar,\n            rpar=node.rpar,", "            operator=node.right.operator,\n            right=new_right,")],
+    "fire", "R-PAREN-SAFE", "combine_call_or_boolop_fold_right")
+add("C08", "outer-matcher-any-operator", "core_codemods/combine_calls_base.py",
+    [("        call_or_call = m.BooleanOperation(\n            left=call_matcher, operator=m.Or(), right=call_matcher\n        )", "        call_or_call = m.BooleanOperation(left=call_matcher, right=call_matcher)")],
+    "fire", "R-BOOLOP-OR", "matches_call_or_call")
+add("C08", "use-generator-drops-args-again", "core_codemods/use_generator.py",
+    [("                                args=[first_arg, *remaining_args],", "                                args=[first_arg],")],
+    "fire", "R-ARGS-PRESERVED", "UseGenerator")
+add("C08", "invert-table-wrong-pair", "core_codemods/invert_boolean_check.py",
+    [("                case cst.LessThan():\n                    new_operator = cst.GreaterThanEqual()", "                case cst.LessThan():\n                    new_operator = cst.GreaterThan()")],
+    "fire", "R-INVERT-TABLE", "_invert_comparisons")
+add("C08", "invert-chains-again", "core_codemods/invert_boolean_check.py",
+    [("        if len(comparison.comparisons) != 1:\n            # `not a == b == c` is not `a != b != c`: leave chained comparisons alone\n            return updated_node\n", "")],
+    "fire", "R-INVERT-TABLE", "InvertedBooleanCheckTransformer")
+add("C08", "invert-loses-parens", "core_codemods/invert_boolean_check.py",
+    [("            comparisons=inverted_comparisons,\n            lpar=updated_node.lpar,\n            rpar=updated_node.rpar,", "            comparisons=inverted_comparisons,")],
+    "fire", "R-PAREN-SAFE", "report_new_comparison")
+
+# --------------------------------------------------------------------------- C16
+add("C16", "requests-verify-value-false", "core_codemods/requests_verify.py",
+    [("[NewArg(name=\"verify\", value=\"True\", add_if_missing=False)]", "[NewArg(name=\"verify\", value=\"False\", add_if_missing=False)]")],
+    "fire", "R-DOC-DELTA", "requests-verify")
+add("C16", "timeouts-keyword-typo", "core_codemods/add_requests_timeouts.py",
+    [("return self.add_arg_to_call(updated_node, \"timeout\", self.DEFAULT_TIMEOUT)", "return self.add_arg_to_call(updated_node, \"timeouts\", self.DEFAULT_TIMEOUT)")],
+    "fire", "R-DOC-DELTA", "add-requests-timeouts")
+add("C16", "secure-cookie-extra-kwarg", "core_codemods/secure_cookie_mixin.py",
+    [("            NewArg(name=\"httponly\", value=\"True\", add_if_missing=True),\n        ]", "            NewArg(name=\"httponly\", value=\"True\", add_if_missing=True),\n            NewArg(name=\"max_age\", value=\"3600\", add_if_missing=True),\n        ]")],
+    "fire", "R-DOC-DELTA", "secure-flask-cookie")
+add("C16", "url-sandbox-other-callee", "core_codemods/url_sandbox.py",
+    [("\"safe_requests\"", "\"unsafe_requests\"")],
+    "fire", "R-DOC-DELTA", "url-sandbox")
+add("C16", "rsa-drops-tail-again", "core_codemods/semgrep/semgrep_rsa_key_size.py",
+    [("                self.make_new_arg(RSA_KEYSIZE),\n                *updated_node.args[2:],", "                self.make_new_arg(RSA_KEYSIZE),")],
+    "fire", "R-ARGS-PRESERVED", "RsaKeySizeTransformer")
+add("C16", "replace_args-drops-unmatched", LT,
+    [("            else:\n                new = arg\n            new_args.append(new)\n\n        for arg_name, replacement_val, add_if_missing in args_info:", "                new_args.append(new)\n\n        for arg_name, replacement_val, add_if_missing in args_info:")],
+    "fire", "R-HELPER-CONTRACT", "replace_args")
+add("C16", "add_arg_to_call-replaces-all", LT,
+    [("        new_args = list(node.args) + [\n            cst.Arg(\n                keyword=cst.Name(value=name),", "        new_args = [\n            cst.Arg(\n                keyword=cst.Name(value=name),")],
+    "fire", "R-HELPER-CONTRACT", "add_arg_to_call")
